@@ -134,3 +134,28 @@ def run(chk, repo):
     dn = [x for x in walk_no_nested(loop) if isinstance(x, ast.Assign) and unparse(x.targets[0]) == 'is_in_denylist']
     chk.ob('C19.e', 'denylist membership tested on the sequence', repo.loc(f, loop), len(dn) == 1 and unparse(dn[0].value) == 'denylist is not None and peptide.seq in denylist',
            'denylist test altered', key=F + '::denylist', fn=f.qual)
+
+    # ------------------------------------------------------------------ f
+    chk.rule('C19.f', 'R-TRUTHY: numeric options are never tested by truthiness (0 is a legal value)', 1)
+    from sa import options as O
+    sp = repo.func('cli.filter_fasta:add_subparser_filter_fasta')
+    ff = repo.func('cli.filter_fasta:filter_fasta')
+    chk.uses(sp, ff)
+    numeric = set()
+    for c in G.find_calls(sp.node, 'add_argument'):
+        t = kwarg(c, 'type')
+        if t is not None and unparse(t) in ('int', 'float'):
+            longs = [a.value for a in c.args if isinstance(a, ast.Constant) and str(a.value).startswith('--')]
+            if longs:
+                numeric.add(longs[0][2:].replace('-', '_'))
+    offenders = []
+    for n in ast.walk(ff.node):
+        if isinstance(n, ast.Attribute) and unparse(n.value) == 'args' and n.attr in numeric:
+            p_ = repo.parent(n)
+            truthy = (isinstance(p_, (ast.If, ast.While)) and p_.test is n) or isinstance(p_, ast.BoolOp) or \
+                (isinstance(p_, ast.UnaryOp) and isinstance(p_.op, ast.Not)) or (isinstance(p_, ast.IfExp) and p_.test is n)
+            if truthy:
+                offenders.append(f"{repo.loc(ff, n)}: args.{n.attr}")
+    chk.ob('C19.f', f"numeric options {sorted(numeric)} are compared, not truth-tested", ff.where, bool(numeric) and not offenders,
+           f"numeric option used as a boolean at {offenders}: the value 0 (e.g. --quant-cutoff 0) silently switches the filter off, so a stricter cutoff keeps more",
+           key=ff.qual + '::numeric-truthiness', fn=ff.qual)
